@@ -70,7 +70,11 @@ def run(ctx):
         # the returned key is that key (vacant) or the stored one (occupied)
         ro = return_origin(fb)
         stored = [c for c in ro.calls if strip_generics(cname(c)).endswith('OccupiedEntry::get') or (strip_generics(cname(c)).endswith('HashMap::get') and on_registry(c))]
-        okr = any(strip_generics(cname(c)).endswith('SchemaKey::from_idx') for c in ro.calls) and bool(stored)
+        inserted = []
+        if len(ins) == 1:
+            inserted = [c for c in origin(fb, keyarg(ins[0][1])).calls if strip_generics(cname(c)).endswith('SchemaKey::from_idx')]
+        ret_keys = [c for c in ro.calls if strip_generics(cname(c)).endswith('SchemaKey::from_idx')]
+        okr = bool(ret_keys) and all(any(c is i_ for i_ in inserted) for c in ret_keys) and bool(stored) and not ro.has_arith()
         ctx.ob('REGFIRST', 'returns-registered-key', okr, short_loc(fb.span), 'returns the registered key (new) or the stored key (already built): %s' % okr)
         # keyed by the TypeLookup type id: every lookup / registration key comes from TypeId::of::<T::TypeLookup>()
         keyed = [(t, 1) for bb, t in fb.calls() if strip_generics(cname(t)).endswith(('HashMap::entry', 'HashMap::get', 'HashMap::insert', 'HashMap::contains_key')) and on_registry(t)]
@@ -165,6 +169,16 @@ def run(ctx):
         b = imp.get(ty)
         ok = b is not None and forward_target(b) == 'T'
         ctx.ob('SHAPES', 'wrapper/%s' % ty, ok, short_loc(b.span) if b else None, '%s forwards append_schema to T: %s' % (ty, ok))
+    lookups = {i['self_ty']: (i.get('assoc_tys') or {}).get('TypeLookup') for i in f.impls if (i.get('trait') or '').endswith('BuildSchema')}
+    for ty in ('alloc::boxed::Box<T>', 'alloc::sync::Arc<T>', 'alloc::rc::Rc<T>', '&T', '&mut T', 'core::cell::RefCell<T>', 'core::cell::Cell<T>'):
+        tl = lookups.get(ty)
+        ctx.ob('SHAPES', 'wrapper-lookup/%s' % ty, tl == '<T as BuildSchema>::TypeLookup', short_loc(imp[ty].span) if ty in imp else None,
+               '%s shares T\'s type-lookup key (a type reached through a wrapper and directly is one node): TypeLookup = %s' % (ty, tl))
+    for ty, want in (('alloc::vec::Vec<T>', 'alloc::vec::Vec<<T as BuildSchema>::TypeLookup>'), ('core::option::Option<T>', 'core::option::Option<<T as BuildSchema>::TypeLookup>'),
+                     ('std::collections::hash::map::HashMap<S, V>', 'std::collections::hash::map::HashMap<alloc::string::String, <V as BuildSchema>::TypeLookup>')):
+        tl = lookups.get(ty)
+        ctx.ob('SHAPES', 'container-lookup/%s' % ty, tl == want, short_loc(imp[ty].span) if ty in imp else None,
+               '%s is keyed by its element\'s key (not by the element type itself): TypeLookup = %s' % (ty, tl))
     for ty, tgt in (('[T]', 'alloc::vec::Vec<T>'), ('alloc::collections::btree::map::BTreeMap<S, V>', 'std::collections::hash::map::HashMap<alloc::string::String, V>')):
         b = imp.get(ty)
         ft = forward_target(b) if b else None
@@ -193,6 +207,15 @@ def run(ctx):
         if len(fx) == 1:
             so = origin(b, fx[0][1]['args'][1])
             ok = any(a[0] == 'const' and (str(a[1]) == 'usize' or 'N' in str(a[1])) for a in so.atoms) and not so.has_arith() and not so.params()
+    # ... and its fullname carries N (fixed nodes of different sizes must not share a fullname)
+    okn = False
+    if b is not None:
+        nm = [(bb, t) for bb, t in b.calls() if strip_generics(cname(t)).endswith('schema::Name::from_fully_qualified_name')]
+        if len(nm) == 1:
+            sl = c20gen.slice_back(b, nm[0][1]['args'][0])
+            shown = [c[2] for c in sl.calls if 'fmt::rt::Argument' in cname(c[2]) and strip_generics(cname(c[2])).rsplit('::', 1)[-1] == 'new_display']
+            okn = len(shown) == 1 and (shown[0].get('arg_tys') or [''])[0] == '&usize' and not [c for c in sl.calls if 'len' in cname(c[2])]
+    ctx.ob('SHAPES', 'byte-array-name-carries-N', okn, short_loc(b.span) if b else None, 'the fullname of the fixed built for [u8; N] is formatted from N: %s' % okn)
     ctx.ob('SHAPES', 'byte-array-is-fixed-N', ok, short_loc(b.span) if b else None, '[u8; N] builds Fixed::new(name, N): %s' % ok)
     # maps: key type is a string deref
     mi = [i for i in f.impls if i.get('trait') == 'BuildSchema' and 'HashMap<S, V>' in i['self_ty']]
@@ -239,8 +262,14 @@ def run(ctx):
             src = c20gen.slice_back(b, t['args'][1])
             if (b.id, 1) in tgt.params and fin and any(c[2] is fin[0][1] for c in src.calls):
                 written = True
-        ok = fed_by_tid and same_hasher and written
-        det = 'hasher fed by the TypeId argument only: %s; finish() of that hasher after feeding: %s; digest written into the name argument: %s' % (fed_by_tid, same_hasher, written)
+        whole = True
+        for bb, t in b.calls():
+            if strip_generics(cname(t)).rsplit('::', 1)[-1].startswith('new_') and 'fmt::rt::Argument' in cname(t):
+                ao = origin(b, t['args'][0])
+                if narrowing_casts(ao) or ao.has_arith():
+                    whole = False
+        ok = fed_by_tid and same_hasher and written and whole
+        det = 'hasher fed by the TypeId argument only: %s; finish() of that hasher after feeding: %s; digest written into the name argument: %s; all 64 bits (no narrowing cast / arithmetic): %s' % (fed_by_tid, same_hasher, written, whole)
     ctx.ob('HASHFN', 'hash_type_id', ok, short_loc(hb[0].span) if hb else None, det)
 
     # ---- macro side, on the corpus
